@@ -31,8 +31,8 @@ RULE = ('(A) argument lists (0-6 args, 0-12 chars) over printable characters '
         'the end; distinct = multiset of per-argument abstractions (char '
         'classes with backslash-run lengths).  (B) histories of 2-6 '
         'configure/regenerate runs of the msbuild backend over scripts whose '
-        'steps (command, build_step, alias, copy_file with dependencies) are '
-        'added, kept, renamed and removed; non-trivial when a project '
+        'steps (command, build_step, alias, copy_file with dependencies, some '
+        'of them explicit defaults) are added, kept, renamed and removed; non-trivial when a project '
         'survives a run in which another project was added or removed; '
         'distinct = abstracted operation sequence.')
 LEVEL_TEXT = ('Generated-input search with explicit oracles: a reference '
